@@ -213,3 +213,30 @@ Proof.
     intros H; inversion H. exists []. reflexivity.
   - split; [vm_compute; reflexivity|]. split; [vm_compute; reflexivity|]. split; vm_compute; reflexivity.
 Qed.
+
+(* ---------- the printed totals are the specification's totals ---------- *)
+Lemma totals_S_map ws :
+  totals_S (map sev_of_wrec ws) =
+  (List.length ws, List.length (filter is_user_rec ws), List.length (filter is_system_rec ws)).
+Proof.
+  unfold totals_S. rewrite map_length. f_equal; [f_equal|].
+  - induction ws as [|w ws IH]; [reflexivity|]. cbn [map filter].
+    assert (E : is_user (sev_of_wrec w) = is_user_rec w) by (destruct w; try reflexivity; cbn; destruct (ev_angle e); reflexivity).
+    rewrite E. destruct (is_user_rec w); cbn [List.length]; rewrite IH; reflexivity.
+  - induction ws as [|w ws IH]; [reflexivity|]. cbn [map filter].
+    assert (E : is_system (sev_of_wrec w) = is_system_rec w) by (destruct w; try reflexivity; cbn; destruct (ev_angle e); reflexivity).
+    rewrite E. destruct (is_system_rec w); cbn [List.length]; rewrite IH; reflexivity.
+Qed.
+
+Theorem end_to_end c fuel cb pls l :
+  fs_structured (fs_of c) -> run_ok c pls = true ->
+  find_S c fuel cb pls = Ok l ->
+  exists o, find_M c fuel cb pls = Ok o /\ l = map sev_of_wrec (all_records o) /\
+    (forallb clean (all_records o) = true ->
+     let '(n, u, s) := totals_S l in
+     fst (closing_M o) = line_if n text1 ++ line_if u text2 ++ line_if s text3).
+Proof.
+  intros Hfs Hok H. destruct (events_partial c fuel cb pls l Hfs Hok H) as (o & Ho & Hl).
+  exists o. split; [exact Ho|]. split; [exact Hl|]. intros Hc. subst l. rewrite totals_S_map.
+  unfold closing_M. rewrite (totals_printed _ Hc). reflexivity.
+Qed.
